@@ -298,7 +298,7 @@ def _mask(rng, K, F, T, regime, dtype):
     elif regime == 'hugeclass':
         # finite, badly scaled: one class around 1e155 next to ordinary ones (squares overflow in the distance / product scores)
         m = rng.random((K, F, T))
-        m[rng.integers(K)] *= 1e155
+        m[rng.integers(K)] *= 1e155 if dtype == 'float64' else 1e30      # (finite in the mask's own precision)
     else:  # int valued
         m = rng.integers(0, 3, size=(K, F, T)).astype(float)
     return m.astype(dtype)
@@ -372,7 +372,7 @@ def _run_aligner(case):
     out = None
     if mapping is not None:
         out, exc = _call(full)
-    if case['regime'] == 'hugeclass' and exc == 'ValueError' and case['metric'] != 'cos':
+    if case['regime'] == 'hugeclass' and exc == 'ValueError' and (case['metric'] != 'cos' or case['dtype'] == 'float32'):
         # the squared entries overflow: the score matrix is not finite and the aligner rejects it explicitly (the property
         # speaks about finite score matrices); whatever mapping IS returned for such a mask is checked like any other
         return recs
